@@ -124,6 +124,43 @@ def gen_cases(tier, seed):
             s['trigger'] = 'event'
             s['cancel_msg'] = rng.choice(msgs)
         cases.append(s)
+    # cancel while a download is in the middle of a long response body (many io chunks still to come)
+    for i in range(50 if quick else 500):
+        ranged = rng.random() < 0.5
+        C = 24
+        size = rng.choice([2 * C + 5, 3 * C]) if ranged else rng.choice([30, 41, 64])
+        cfg = dict(multipart_threshold=C if ranged else 1000, multipart_chunksize=C, io_chunksize=rng.choice([2, 4]), max_request_concurrency=rng.choice([1, 2]),
+                   max_io_queue_size=1000)
+        dst = rng.choice(['path', 'seekable', 'nonseekable', 'fifo'])
+        how = rng.choice(['future.cancel', 'future.cancel', 'shutdown_cancel', 'with_exc'])
+        wkey = 'fs:write' if dst in ('path', 'fifo') else 'dst:write'
+        s = {'seed': rng.randrange(1 << 30), 'config': cfg, 'transfers': [{'kind': 'download', 'dst': dst, 'size': size}], 'entry': how, 'family': 'mid-download',
+             'get_read_caps': rng.choice([None, None, [[3]], [[2, 4]]]),
+             'plan': {'cancel': {'at': f't0/{wkey}#{rng.choice([0, 1, 2])}', 'phase': rng.choice(['before', 'after']), 'how': how,
+                                 'from': rng.choice(['main', 'event']) if how == 'future.cancel' else 'main'}}}
+        if how != 'future.cancel':
+            s['mode'] = how
+            s['trigger'] = 'event'
+            s['cancel_msg'] = rng.choice(msgs)
+        cases.append(s)
+    # the transfer is cancelled while the submission thread is still reading the source stream, and a later read of that stream
+    # fails: the cancellation stays the reported outcome
+    for i in range(50 if quick else 500):
+        mem = rng.choice([1, 1, 2])
+        cfg = dict(multipart_threshold=8, multipart_chunksize=8, max_request_concurrency=rng.choice([1, 2]), max_submission_concurrency=1,
+                   max_in_memory_upload_chunks=mem)
+        how = rng.choice(['future.cancel', 'future.cancel', 'shutdown_cancel', 'with_exc'])
+        s = {'min_part': 8, 'config': cfg, 'seed': rng.randrange(1 << 30), 'family': 'then-source-fails', 'entry': how, 'poll_done': True,
+             'transfers': [{'kind': 'upload', 'src': rng.choice(['nonseekable', 'seekable']), 'size': rng.choice([41, 57, 73])}],
+             'plan': {'gate': {'match': '/s3:UploadPart', 'phase': rng.choice(['before', 'after']), 'policy': 'seeded'},
+                      'faults': [{'at': f't0/src:read#{rng.randrange(mem + 3, mem + 6)}', 'phase': rng.choice(['before', 'after']), 'kind': 'exc', 'tag': 'FAULT-src'}],
+                      'cancel': {'at': rng.choice(['t0/s3:UploadPart:1#0', 't0/s3:UploadPart:2#0']), 'phase': rng.choice(['before', 'after']), 'how': how,
+                                 'from': rng.choice(['main', 'event']) if how == 'future.cancel' else 'main'}}}
+        if how != 'future.cancel':
+            s['mode'] = how
+            s['trigger'] = 'event'
+            s['cancel_msg'] = rng.choice(msgs)
+        cases.append(s)
     # a download to a file cancelled after some of it was written, where one of the cleanup steps itself fails (closing the
     # temporary file raises: ENOSPC / EIO on the final flush): the remaining cleanups - removing the temporary file - still run
     for i in range(50 if quick else 500):
